@@ -55,8 +55,8 @@ func (w *world) key(clk *re_clock.SuspendableClock) string {
 	if w.delivNow == w.clk.nowTick() {
 		ld = fmt.Sprintf("%d/%d", w.delivNow-w.delivStamp, w.u-w.delivU)
 	}
-	s += fmt.Sprintf("|rc=%d,st=%v,dn=%v,w=%d,u=%d,cx=%v,lu=%d,lc=%d,la=%v,ld=%s|r=%d/%d,%d/%d|g=%v%v%v%v|sd=%s",
-		w.refCount, w.started, w.done, w.wall, w.u, w.cancelled, w.lateU, w.lateCap, w.lateAny, ld,
+	s += fmt.Sprintf("|rc=%d,st=%v,dn=%v,w=%d,u=%d,cx=%v,lu=%d,lc=%d,ld=%s|r=%d/%d,%d/%d|g=%v%v%v%v|sd=%s",
+		w.refCount, w.started, w.done, w.wall, w.u, w.cancelled, w.lateU, w.lateCap, ld,
 		w.ops[0], w.depth[0], w.ops[1], w.depth[1],
 		w.readerGate[0].waiting, w.readerGate[1].waiting, w.startGate.waiting, w.finishGate.waiting,
 		w.startDump)
@@ -258,17 +258,19 @@ func (w *world) commandTimer(clk *re_clock.SuspendableClock) {
 }
 
 // checkTimerValue: the value published by the timer is the firing instant of
-// a base timer: the current instant, or up to maxLate ticks earlier if late
-// ticks were taken in this execution.
+// the base timer whose delivery made it fire (the current instant unless that
+// delivery was late).
 func (w *world) checkTimerValue(v time.Time) {
+	now := w.clk.nowTick()
 	w.mu.Lock()
-	late := w.lateAny
-	w.mu.Unlock()
-	now := w.clk.Now()
-	if v.Equal(now) || (late && v.Before(now) && !v.Before(now.Add(-maxLate*tick))) {
-		return
+	want := now
+	if w.delivNow == now {
+		want = w.delivStamp
 	}
-	w.fail("timer-value", "timer published %v, but it fired at %v", v.Sub(epoch), now.Sub(epoch))
+	w.mu.Unlock()
+	if !v.Equal(w.clk.at(want)) {
+		w.fail("timer-value", "timer published %v at %v, but the base timer that made it fire had fired at %v", v.Sub(epoch), w.clk.at(now).Sub(epoch), w.clk.at(want).Sub(epoch))
+	}
 }
 
 // onDeliver records the delivery of a base timer.
@@ -326,7 +328,6 @@ func (w *world) doTick(late bool) {
 			w.u++
 		}
 		if late {
-			w.lateAny = true
 			if loopDue && w.refCount == 0 {
 				w.lateU++
 			}
@@ -417,13 +418,17 @@ func scenario(p params, bounds map[string]int) *mc.Scenario {
 			})
 			// 2b. Late delivery: a tick passes although the value of a
 			// due base timer has not been delivered yet (the goroutine of
-			// the clock under test is scheduled late). A deviation; a
-			// timer is at most maxLate ticks late; the deadline of the
-			// base context is always prompt. (Must come after the
-			// deliver events: the first enabled event is free.)
-			x.AddEvent(&mc.Event{
-				Name: "tick-late", OnlyIdle: true, IdleCost: 1,
-				Enabled: func() bool {
+			// the clock under test is scheduled late). Opening such a
+			// window costs 2 deviations (the quick tier explores every
+			// position of ONE late window, combined with the free reader
+			// brackets, cancellation instants and delivery orders; several
+			// windows and windows combined with other deviations are left
+			// to the thorough tier); extending an open window up to maxLate
+			// ticks is free. The deadline of the base context is always
+			// prompt. (Must come after the deliver events: the first
+			// enabled event is free.)
+			lateEnabled := func(extend bool) func() bool {
+				return func() bool {
 					w.mu.Lock()
 					started, done := w.started, w.done
 					w.mu.Unlock()
@@ -431,9 +436,18 @@ func scenario(p params, bounds map[string]int) *mc.Scenario {
 						return false
 					}
 					loopDue, capDue, oldest := w.clk.dueKinds()
-					return (loopDue || capDue) && oldest < maxLate && w.clk.nowTick() < hardMax
-				},
-				Fire: func() { w.doTick(true) },
+					return (loopDue || capDue) && oldest < maxLate && (oldest > 0) == extend && w.clk.nowTick() < hardMax
+				}
+			}
+			x.AddEvent(&mc.Event{
+				Name: "tick-late", OnlyIdle: true, IdleCost: 2,
+				Enabled: lateEnabled(false),
+				Fire:    func() { w.doTick(true) },
+			})
+			x.AddEvent(&mc.Event{
+				Name: "tick-late+", OnlyIdle: true,
+				Enabled: lateEnabled(true),
+				Fire:    func() { w.doTick(true) },
 			})
 			// Deliveries that nobody is waiting for any more (the
 			// clock's goroutine has gone): only at full quiescence.
